@@ -236,7 +236,8 @@ def rwlock_case(draw, tier):
         # any number of readers queued behind a writer and admitted by one hand-off
         n = draw(st.sampled_from(CROWD_SIZES))
         f = fibers[draw(ints(0, nf - 1))]
-        f.insert(draw(ints(0, len(f))), op("rdcrowd", draw(ints(0, nl - 1)), n))
+        # ... behind a writer that holds the lock, or behind a writer that is itself waiting for a reader to leave
+        f.insert(draw(ints(0, len(f))), op(draw(st.sampled_from(["rdcrowd", "wrcrowd"])), draw(ints(0, nl - 1)), n))
         case["classes"].append("waiting_" + crowd_class(n))
         case.update(crowd_limits(n))
     elif draw(ints(0, 29)) == 0:
@@ -406,6 +407,15 @@ def join_case(draw, tier, allow_detach_blocked=True):
     fibers = targets + actors
     classes = ["threads=%d" % threads] + sorted(set(scens))
     cfg = {"allow_freed": 1} if "contend_finished" in scens else {}
+    if draw(ints(0, 5)) == 0:
+        # a chain: fiber J joins a target F (still running, with luck) without asking for its result, then returns NULL itself; another fiber joins J and
+        # asks for the result (a fiber's result slot is also where a joiner's hand-over lands)
+        f_i, j_i = len(fibers), len(fibers) + 1
+        fibers.append([op("target", -1), op("yield", draw(ints(1, 4)))] + small_ops(draw, 2))
+        fibers.append([op("target", -1)] + small_ops(draw, 1) + [op("join", f_i, 0, 1)])
+        fibers.append(small_ops(draw, 2) + [op("join", j_i, 0, 2)])
+        cfg["ret_null"] = j_i + 1
+        classes.append("join_chain")
     if draw(ints(0, 3)) == 0:
         # the targets return values a library might use as in-band markers (NULL, -1, -2, -3, 1, 2) instead of distinct tokens
         cfg["ret_special"] = draw(ints(1, 6))
@@ -575,6 +585,10 @@ def sleep_case(draw, tier):
     for _ in range(draw(ints(0, 2))):
         fibers.append([op("yield", draw(ints(1, 30)))])
     classes = ["threads=%d" % threads, "backlog" if backlog else "no_backlog", "sub_second" if not long_one else "seconds" if long_one[0] < 1000 else "hours"]
+    if draw(ints(0, 5)) == 0:
+        # a fiber marks its kernel thread with fiber_io_lock_thread() for a stretch of plain work: sleeps on the other threads are not concerned
+        fibers.append([op("lockwork", draw(ints(5, 60))) for _ in range(draw(ints(1, 4)))])
+        classes.append("lock_thread")
     if (long_one is None or long_one[0] < 1000) and draw(ints(0, 4)) == 0:
         # fibers that poll with fiber_yield for something a sleeper does after waking: the kernel threads never go idle, the
         # sleeper depends on the polls made from inside fiber_yield
@@ -609,6 +623,11 @@ def yield_case(draw, tier):
         pos = draw(ints(0, len(fibers[by])))
         fibers[by].insert(pos, op("spawn", d))
     classes = ["threads=%d" % threads, "fibers>=3" if nf >= 3 else "fibers=2", "deferred_spawn" if deferred else "all_at_start"]
+    if draw(ints(0, 5)) == 0:
+        # a fiber that called fiber_io_lock_thread() and goes on yielding
+        t3 = draw(ints(0, nf - 1))
+        fibers[t3].insert(draw(ints(0, len(fibers[t3]))), op("lockyield", draw(st.sampled_from([3, 20, 60]))))
+        classes.append("lock_thread_then_yield")
     if draw(ints(0, 5)) == 0:
         # other library calls made between the yields: one fiber holds a fiber spinlock across a few yields, others try it
         h = draw(ints(0, nf - 1))
@@ -984,8 +1003,13 @@ def queue_case(draw, tier):
         cons.append(op(k, draw(ints(1, 6)), draw(ints(0, 2))))
     fibers.insert(draw(ints(0, len(fibers))), cons)
     names = {0: "mpsc", 1: "spsc", 2: "mpsc_relaxed"}
-    return {"harness": "queue", "threads": 1, "cfg": {"qkind": kind, "lanes": nlanes}, "fibers": fibers,
-            "classes": [names[kind], "producers=%d" % nlanes if nlanes <= 4 else "producers>4"]}
+    cfg = {"qkind": kind, "lanes": nlanes}
+    classes = [names[kind], "producers=%d" % nlanes if nlanes <= 4 else "producers>4"]
+    if kind == 2 and draw(ints(0, 2)) == 0:
+        # the relaxed queue's round-robin counter just below a power of two it is about to cross
+        cfg["counter_base"] = 2 ** draw(st.sampled_from([16, 31, 32])) - draw(ints(0, 2 * nlanes + 2))
+        classes.append("counter_near_2^k")
+    return {"harness": "queue", "threads": 1, "cfg": cfg, "fibers": fibers, "classes": classes}
 
 
 @st.composite
@@ -1079,7 +1103,8 @@ def hazard_case(draw, tier):
                 ops.append(op("scan"))
         fibers.append(ops)
     late = sum(1 for f in fibers if any(o[0] == "reg" for o in f))
-    return {"harness": "hazard", "threads": 1, "cfg": {"slots": k}, "fibers": fibers, "classes": ["records=%d" % nth, "slots=%d" % k, "late_registration" if late else "all_upfront", "far_addresses" if far else "near_addresses"]}
+    nested = draw(ints(0, 3)) == 0   # reclamation callbacks that retire a further node through the same record
+    return {"harness": "hazard", "threads": 1, "cfg": {"slots": k, "nested_retire": 1 if nested else 0}, "fibers": fibers, "classes": ["records=%d" % nth, "slots=%d" % k, "late_registration" if late else "all_upfront", "far_addresses" if far else "near_addresses"]}
 
 
 def c02_parts(tier):
@@ -1155,6 +1180,13 @@ def io_case(draw, tier, shapes=("streams", "streams", "streams", "accept", "badf
         return {"harness": "io", "threads": threads, "cfg": cfg, "fibers": fibers, "classes": sorted(set(classes))}
     if shape in ("streams", "close_under_waiter"):
         ns = draw(ints(1, 3))
+        # several fibers that poll their descriptors with fiber_yield on one kernel thread, every writer blocked on a full buffer:
+        # the pollers depend on the event polls made from inside fiber_yield
+        pollers = shape == "streams" and draw(ints(0, 7)) == 0
+        if pollers:
+            ns = draw(ints(2, 3))
+            threads = 1
+            classes = ["threads=1", shape, "pollers_only"]
         cfg["nstream"] = ns
         if draw(st.booleans()):
             cfg["sndbuf"] = draw(st.sampled_from([1024, 4096, 16384]))
@@ -1169,7 +1201,7 @@ def io_case(draw, tier, shapes=("streams", "streams", "streams", "accept", "badf
         for s_ in range(ns):
             typ = draw(ints(0, 1))
             cfg["stream_type%d" % s_] = typ
-            dirs = [0] if (typ == 1 or (shape == "close_under_waiter" and s_ == 0)) else draw(st.sampled_from([[0], [0, 1]]))
+            dirs = [0] if (typ == 1 or pollers or (shape == "close_under_waiter" and s_ == 0)) else draw(st.sampled_from([[0], [0, 1]]))
             shared_fd = len(dirs) == 2  # both ends carry a reader and a writer: no mode switches on them
             if len(dirs) == 2:
                 classes.append("bidirectional_fd")
@@ -1192,20 +1224,22 @@ def io_case(draw, tier, shapes=("streams", "streams", "streams", "accept", "badf
                     fibers.append(small_ops(draw, 2) + [op("yield", draw(ints(1, 4))), op("rclose", a)])
                     continue
                 total = draw(st.sampled_from([1, 10, 500, 5000, 70000, 300000])) if tier == "thorough" or draw(ints(0, 3)) else draw(st.sampled_from([1, 10, 500, 5000]))
+                if pollers:
+                    total = draw(st.sampled_from([70000, 300000]))
                 if total > 5000:
                     classes.append("larger_than_buffer")
                 w = small_ops(draw, 1)
                 r = small_ops(draw, 1)
                 # optional non-blocking mode on either end (the loops then poll with yield)
-                if not shared_fd and draw(ints(0, 3)) == 0:
+                if not shared_fd and (pollers or draw(ints(0, 3)) == 0):
                     r.append(op("nbmode", a, 0, draw(st.sampled_from([1, 2]))))
                     classes.append("nonblocking_reader")
-                    if draw(st.booleans()):
+                    if not pollers and draw(st.booleans()):
                         half = max(1, total // 2)
                         r.append(op("rd", a, half, draw(ints(0, 4)) | (_chunk_for(draw, half) << 4)))
                         r.append(op("nbmode", a, 0, draw(st.sampled_from([3, 4]))))
                         classes.append("back_to_blocking")
-                if not shared_fd and draw(ints(0, 4)) == 0:
+                if not shared_fd and not pollers and draw(ints(0, 4)) == 0:
                     w.append(op("nbmode", a, 1, draw(st.sampled_from([1, 2]))))
                     classes.append("nonblocking_writer")
                 left = total
